@@ -1072,6 +1072,10 @@ func (w *World) externalErrorEnumeration(root *Node) error {
 // C08: cache transparency (schedules of commit / drop cache / reopen)
 
 func runC08(c *CaseCtx) *CaseResult {
+	if c.Case%24 == 23 {
+		// more than 256 inlined children in one slab, committed, evicted and read back (props_struct.go)
+		return runWideParentCase(c, rand.New(rand.NewSource(c.CaseSeed()^0x256)))
+	}
 	r := rand.New(rand.NewSource(c.CaseSeed() ^ 0xc08))
 	kind := "array"
 	if c.Case%2 == 1 {
